@@ -195,6 +195,7 @@ func main() {
 										errs[i] = err.Error()
 										return
 									}
+									w.Close() // the `defer w.Close()` next to a checked Close: must be harmless
 									results[i] = buf.Bytes()
 								} else {
 									r, err := age.Decrypt(bytes.NewReader(files[o.k]), sh.id)
@@ -236,6 +237,19 @@ func main() {
 							if r := lab.DecryptBytes(res, false, kt.fresh().id); !r.OK() || !bytes.Equal(r.Plain, plains[o.k]) {
 								panic("solo ciphertext does not decrypt")
 							}
+						}
+					}
+					// history before the threads start: a completed encryption whose writer is closed twice, and a
+					// decryption abandoned half-way (whatever these leave behind in package state is what the threads find)
+					{
+						var buf bytes.Buffer
+						if w, err := age.Encrypt(&buf, base.rcpt); err == nil {
+							w.Write(plains[1])
+							w.Close()
+							w.Close()
+						}
+						if r, err := age.Decrypt(bytes.NewReader(files[2]), base.id); err == nil {
+							r.Read(make([]byte, 10))
 						}
 					}
 					sh0 := kt.fresh()
